@@ -66,7 +66,7 @@ class IsEmail(Validator):
 
     def validate(self, element, state):
         addr = element.value
-        if addr.count("@") != 1:
+        if addr is None or addr.count("@") != 1:
             return self.note_error(element, state, "invalid")
 
         local_part, domain = addr.split("@")
